@@ -18,7 +18,7 @@ import sys
 
 import numpy as np
 
-from .. import gen, session, specgen
+from .. import env, gen, session, specgen
 from ..tracer import TR
 
 PROP = 'C11'
@@ -288,7 +288,7 @@ def run_job(job):
     try:
         return _run_job(job)
     finally:
-        os.chdir('/')
+        os.chdir(env.CACHE + '/cwd' if os.path.isdir(env.CACHE + '/cwd') else env.VERIF)
         import shutil
         shutil.rmtree(scratch, ignore_errors=True)
 
